@@ -97,15 +97,23 @@ def locate(traces, line):
     return len(traces) - 1, len(traces[-1])
 
 
-def judge(ctx, module, traces, describe, chunk=400, timeout=900):
+def judge(ctx, module, traces, describe, chunk=400, timeout=900, max_lines=30000):
     """Validate histories with TLC (see spec/LimitsTrace.tla).  One strict run per chunk: violating paths are pruned,
     Hang/Crash lines yield @@VERDICT lines.  A history without clean explanation stops the strict run; it is re-judged
     alone with the diagnostic configuration, which tells a failed obligation (verdict) from a history that the
     specification cannot explain at all (machinery error).  `describe(trace, pos, tag)` -> (obligation, signature, text)."""
     traces = truncate_terminal(traces)
     end = [{"op": "End"}]
-    for start in range(0, len(traces), chunk):
-        remaining = traces[start:start + chunk]
+    # TLC cannot handle behaviours of 65536 or more states: a chunk is one behaviour of (lines + internal steps) states
+    starts, n = [0], 0
+    for i, t in enumerate(traces):
+        if i > starts[-1] and (n + len(t) > max_lines or i - starts[-1] >= chunk):
+            starts.append(i)
+            n = 0
+        n += len(t)
+    for ci, start in enumerate(starts):
+        stop = starts[ci + 1] if ci + 1 < len(starts) else len(traces)
+        remaining = traces[start:stop]
         for attempt in range(60):
             if not remaining:
                 break
@@ -153,7 +161,7 @@ def judge(ctx, module, traces, describe, chunk=400, timeout=900):
             if nbad >= 4 and ctx.violations:
                 # the verdict is settled (exit 1); every further violating history would cost two more TLC runs
                 vlib.log("%s: %d histories with failed obligations reported; the remaining %d histories are not judged"
-                         % (module, nbad, len(remaining) + max(0, len(traces) - start - chunk)))
+                         % (module, nbad, len(remaining) + len(traces) - stop))
                 return
         else:
             raise vlib.MachineryError("too many violating histories in one chunk")
@@ -281,7 +289,7 @@ def check_rm(ctx, drv):
         if traces and mode == "disc":
             ctx.sample({"rm_history_prefix": traces[0][:10]})
         alltraces += traces
-    judge(ctx, "Trace_LimitsRM", alltraces, rm_describe, chunk=ctx.pick(400, 500))
+    judge(ctx, "Trace_LimitsRM", alltraces, rm_describe, chunk=500, max_lines=15000)
 
     if getattr(ctx, "selftest", False):
         # regression of the trace spec itself: a legal history that needs Drop(cancelled waiter) BEFORE the notifications
